@@ -36,7 +36,8 @@ func c45Weight(c *c45Ch, withNil bool) *wrapperspb.UInt32Value {
 // c45GenEDS: <=2 localities (id in {unset, A, B}, priority in {0,1,2,5},
 // weight in {0,1,2^32-1} (+unset in thorough)), each with <=2 endpoints
 // (weight in {unset,0,1,2^32-1}; address equal to an earlier endpoint's or
-// fresh: every equality pattern; thorough: also "endpoint without address");
+// fresh: every equality pattern; thorough: also "endpoint without address";
+// quick: at most 3 endpoints in total);
 // for <=1 locality additionally cluster name {set, empty} and drop policy
 // {none, per-hundred, invalid denominator}.
 func c45GenEDS(c *c45Ch) proto.Message {
@@ -57,7 +58,11 @@ func c45GenEDS(c *c45Ch) proto.Message {
 		}
 		loc.Priority = []uint32{0, 1, 2, 5}[c.N(4)]
 		loc.LoadBalancingWeight = c45Weight(c, c.Thorough)
-		nEp := c.N(3)
+		maxEp := 2
+		if !c.Thorough && i == 1 && len(cla.Endpoints[0].LbEndpoints) == 2 {
+			maxEp = 1 // quick tier: at most 3 endpoints in total
+		}
+		nEp := c.N(maxEp + 1)
 		for j := 0; j < nEp; j++ {
 			ep := &v3endpointpb.LbEndpoint{LoadBalancingWeight: c45Weight(c, true)}
 			extra := 0
